@@ -13,8 +13,9 @@ SERVER_IN = [P + "ServerSSM.indication[%s, %s]" % sk for sk in (("SEGMENTED_REQU
 SERVER_ANSWER = [P + "ServerSSM.confirmation"]
 SERVER_TASK = [P + "ServerSSM.process_task[%s]" % s for s in ("SEGMENTED_REQUEST", "AWAIT_RESPONSE", "SEGMENTED_RESPONSE", "COMPLETED", "ABORTED")]
 SEGMENTS = [P + "SSM.in_window", P + "SSM.get_segment[ClientSSM]", P + "SSM.get_segment[ServerSSM]"]
-SAP_ALLOC = [P + "StateMachineAccessPoint.get_next_invoke_id[%d live]" % n for n in range(4)]
-SAP_START = [P + "StateMachineAccessPoint.sap_indication[confirmed request, %d live]" % n for n in range(3)]
+_B = 4 if __import__("os").environ.get("VERIF_TIER") == "thorough" else 3
+SAP_ALLOC = [P + "StateMachineAccessPoint.get_next_invoke_id[%d live]" % n for n in range(_B + 1)]
+SAP_START = [P + "StateMachineAccessPoint.sap_indication[confirmed request, %d live]" % n for n in range(_B)]
 SAP_DEMUX = [P + "StateMachineAccessPoint.confirmation[block: demultiplexing, %s]" % k
              for k in ("ConfirmedRequest", "SimpleAck", "ComplexAck", "SegmentAck", "Error", "Reject", "Abort")]
 SAP_ANSWER = [P + "StateMachineAccessPoint.sap_confirmation"]
